@@ -1,5 +1,62 @@
-import Logg.Model.Encoder
+/-
+  C06 — Colored console mode: faithful layout and no colour bleeding out of a record.
+  (model tied byte for byte to the code on the fidelity domain; see DESIGN.md §7 C06 for what is
+  proved and what the SGR-tracker oracle decides per generated record)
+-/
+import Logg.Lemmas.EncoderClean
+
 namespace Logg.Props.C06
-open Logg
-example : jsonQuote [97] = [34, 97, 34] := by decide
+open Logg Logg.Lemmas
+
+/-- (1) Every coloured piece the encoder emits for message text switches its colour off again:
+    `wrapColorAndBg` always ends with the reset sequence. -/
+theorem wrapped_text_ends_with_reset (text : Bytes) (clr bg : Int) :
+    ∃ pre, wrapColorAndBg text clr bg = pre ++ escReset := ⟨_, rfl⟩
+
+/-- (2) The attribute part of a colored record always ends with the reset sequence, whatever the
+    attributes are (also when there are none). -/
+theorem attrs_end_with_reset (c : EncCfg) (hc : c.fmt = .color) (depth : Nat) (attrs : List Attr) :
+    ∃ pre, encTopAttrs c depth attrs = pre ++ escReset := by
+  refine ⟨encAttrs c depth [] false (prepAttrs attrs), ?_⟩
+  simp [encTopAttrs, EncCfg.noColor, hc]
+
+/-- (3) Attribute values never contribute raw escape or control bytes: every string-like value
+    (strings, errors, Stringers, durations, []byte, the %v fallback) goes through Go-syntax quoting in
+    colored mode as well, whose output is free of control bytes (ESC included) and DEL for all inputs. -/
+theorem values_are_quoted_clean (s : Bytes) :
+    ({ fmt := .color, isPrint := isPrintTable } : EncCfg).quote s = goQuote isPrintTable s ∧
+    Clean (goQuote isPrintTable s) := by
+  refine ⟨by simp [EncCfg.quote, quoteValue, EncCfg.json], goQuote_clean _ isPrintTable_safe s⟩
+
+/-- (4) The first message line is padded with spaces to the minimal width (never truncated). -/
+theorem first_line_padded (s : Bytes) (w : Nat) :
+    (rightPad s w).length = max s.length w ∧ (rightPad s w).take s.length = s := by
+  unfold rightPad
+  constructor
+  · simp; omega
+  · simp
+
+/-- (5) The level tag has the configured width (1 … 5) for every level without custom tags. -/
+theorem tag_has_configured_width (reg : Registry) (l : Int) (n : Nat) (hn : 1 ≤ n ∧ n ≤ 5)
+    (hno : reg.hasCustomTag l n = false) : ∃ t, reg.shortTag l n = some t ∧ t.length = n := by
+  have h1 : ¬ ((n : Int) ≤ 0 ∨ (n : Int) ≥ maxLengthShortTag) := by simp [maxLengthShortTag]; omega
+  unfold Registry.hasCustomTag at hno
+  have hnone : (List.lookup n reg.shortTags).bind (fun row => List.lookup l row) = none := by
+    cases hx : (List.lookup n reg.shortTags).bind (fun row => List.lookup l row) <;> simp_all
+  simp only [Registry.shortTag, h1, ↓reduceIte, Int.toNat_natCast, hnone]
+  by_cases hl : (reg.name l).length > 0
+  · simp only [hl, ↓reduceIte]
+    by_cases he : (reg.name l).length = n
+    · exact ⟨reg.name l, by simp [he], he⟩
+    · by_cases hlt : (reg.name l).length < n
+      · exact ⟨(reg.name l ++ List.replicate n 32).take n, by simp [he, hlt], by simp⟩
+      · exact ⟨(reg.name l).take n, by simp [he, hlt], by simp; omega⟩
+  · exact ⟨List.replicate n 63, by simp [hl], by simp⟩
+
+-- non-vacuity: the pieces of a two-line Info message: the first line is wrapped and reset before the line feed,
+-- a single remaining line is indented by four spaces and carries no colour
+example : wrapColorAndBg [97, 32] 36 (-1) = [27, 91, 51, 54, 109, 97, 32, 27, 91, 48, 109] ∧
+          splitFirstRest [97, 10, 98] = ([97], [98], false) ∧ splitFirstRest [97, 10, 98, 10] = ([97], [98], true) ∧
+          rightPad [97] 2 = [97, 32] := by decide
+
 end Logg.Props.C06
